@@ -44,9 +44,25 @@ class Waiter:
         self.run, self.reg, self.request, self.behaviour = run, reg, request, behaviour
         self.calls = 0
         self.fit_at_pass_start = None
+        self.eq_key = 'twin' if behaviour.endswith('_twin') else None
+        if self.eq_key:
+            self.behaviour = behaviour[:-5]
 
     def __call__(self, rm, req):
         self.run.on_callback(self, rm, req)
+
+    # some callbacks are callable objects that compare equal to one another (by a name of theirs): two registrations
+    # with equal requests and equal callbacks are still two registrations
+    def __eq__(self, other):
+        if isinstance(other, Waiter) and self.eq_key is not None:
+            return self.eq_key == other.eq_key
+        return self is other
+
+    def __ne__(self, other):
+        return not self.__eq__(other)
+
+    def __hash__(self):
+        return hash(self.eq_key) if self.eq_key is not None else id(self)
 
 
 C09_OWNED = {'pool_usage_ne_holdings', 'reserve_vs_fit', 'over_capacity', 'crash'}
@@ -191,10 +207,10 @@ class Run:
             self.fail('called_when_infeasible', f'registration {w.reg} {w.request} called back at {self.env.now!r} '
                       f'although it does not fit')
             return
-        if w not in self.waiting:
+        if not any(x is w for x in self.waiting):
             self.fail('called_twice', f'registration {w.reg} called back although it is no longer waiting')
             return
-        k = self.waiting.index(w)
+        k = next(i for i, x in enumerate(self.waiting) if x is w)
         if k < self.scan_pos:
             self.fail('order', f'registration {w.reg} served after a later-registered one in the same pass')
             return
@@ -357,7 +373,11 @@ def gen_case(rng, tie, decimal=False):
         if x < 0.45:
             op = ['register', req(), rng.choice(['none', 'reserve', 'reserve', 'reserve_release_later',
                                                  'release_other', 'register_again', 'reserve_offered',
-                                                 'other_then_reserve_offered'])]
+                                                 'other_then_reserve_offered', 'reserve_twin', 'none_twin',
+                                                 'reserve_release_later_twin'])]
+            if op[2].endswith('_twin') and rng.random() < 0.6 and script:
+                # ... and an equal request registered with an equal callback a moment earlier or at the same instant
+                script.append([t, prio, ['register', [list(x) for x in op[1]], op[2]]])
         elif x < 0.6:
             op = ['reserve', req()]
         elif x < 0.8:
